@@ -4,4 +4,5 @@ set -e
 cd "$(dirname "$0")/build"
 make -j16 -s FLAVOUR=plain f8c
 make -j16 -s FLAVOUR=asan fx
+make -j16 -s FLAVOUR=tsan fx
 echo "setup ok"
